@@ -1,6 +1,7 @@
 package c19_rsync
 
 import (
+	"io"
 	"bytes"
 	"fmt"
 	"os"
@@ -246,6 +247,20 @@ func judgeC19(s *scratch, base, target []byte, bs, m uint64, opt options) (strin
 		if !opsEqual(ops, s.sops) {
 			return fmt.Sprintf("streaming Deltify (one byte per read) yields %s, in-memory yields %s", renderOps(s.sops), renderOps(ops)), info
 		}
+		// The same through a plain io.Reader that is not an io.ByteReader and
+		// hands out as much as is asked for (what a file does): the engine
+		// then reads through its own buffering layer.
+		s.sops = s.sops[:0]
+		s.targRd.Reset(target)
+		if err := eng.Deltify(plainReader{s.targRd}, sig, m, s.xmit); err != nil {
+			return fmt.Sprintf("streaming Deltify (plain reader) failed: %v", err), info
+		}
+		if s.invalid != "" {
+			return "streaming (plain reader): " + s.invalid, info
+		}
+		if !opsEqual(ops, s.sops) {
+			return fmt.Sprintf("streaming Deltify (plain io.Reader) yields %s, in-memory yields %s", renderOps(s.sops), renderOps(ops)), info
+		}
 	}
 
 	// No matchable block is missed: the literal volume does not exceed that of
@@ -266,6 +281,11 @@ func judgeC19(s *scratch, base, target []byte, bs, m uint64, opt options) (strin
 	}
 	return "", info
 }
+
+// plainReader hides every method of the wrapped reader except Read.
+type plainReader struct{ r io.Reader }
+
+func (p plainReader) Read(b []byte) (int, error) { return p.r.Read(b) }
 
 func show(p []byte) string {
 	if len(p) <= 48 {
